@@ -13,9 +13,9 @@ def ofStart (r : State × Res × List Ev) : Out :=
     | .err _ => .ret [.ptr none, .err true]),
    r.2.2)
 
-theorem ofStart_nil (s : State) (e : List Ev) : ofStart (s, .nil, e) = (s, .ret [.ptr none, .err false], e) := rfl
-theorem ofStart_sess (s : State) (h : Nat) (e : List Ev) : ofStart (s, .sess h, e) = (s, .ret [.ptr (some h), .err false], e) := rfl
-theorem ofStart_err (s : State) (w : String) (e : List Ev) : ofStart (s, .err w, e) = (s, .ret [.ptr none, .err true], e) := rfl
+theorem ofStart_nil (s : State) (e : List Ev) : ofStart (s, .nil, e) = (s, .ret [.ptr none, .err false], e) := id rfl
+theorem ofStart_sess (s : State) (h : Nat) (e : List Ev) : ofStart (s, .sess h, e) = (s, .ret [.ptr (some h), .err false], e) := id rfl
+theorem ofStart_err (s : State) (w : String) (e : List Ev) : ofStart (s, .err w, e) = (s, .ret [.ptr none, .err true], e) := id rfl
 theorem ofStart_ite (c : Prop) [Decidable c] (a b : State × Res × List Ev) :
     ofStart (if c then a else b) = if c then ofStart a else ofStart b := by split <;> rfl
 
@@ -33,7 +33,7 @@ syntax "ir2_eval" "[" Lean.Parser.Tactic.simpLemma,* "]" : tactic
 set_option hygiene false in
 macro_rules
   | `(tactic| ir2_eval [$ls,*]) =>
-    `(tactic| simp [execP,
+    `(tactic| simp (config := { maxSteps := 4000000 }) [execP,
         (fun (st : State) (env : List (String × V)) (es : List Ev) (hs : List String) (l : ID → Nat) => ev.eq_1 (m := (M.mk st env es hs l))),
         (fun (st : State) (env : List (String × V)) (es : List Ev) (hs : List String) (l : ID → Nat) => ev.eq_2 (m := (M.mk st env es hs l))),
         (fun (st : State) (env : List (String × V)) (es : List Ev) (hs : List String) (l : ID → Nat) => ev.eq_3 (m := (M.mk st env es hs l))),
